@@ -1,6 +1,7 @@
 package main
 
 import (
+	"fmt"
 	"go/token"
 	"go/types"
 
@@ -143,6 +144,141 @@ func runC16(c *Ctx) {
 			}
 		}
 		c.check(good, fn, "mask protocol", fn.Pos(), "bit set, key generated into the frame, payload masked with that key", why)
+		// the masking is skipped for an empty payload only
+		if msk != nil && payloadCall != nil {
+			okGuard := true
+			for _, l := range guardsOf(msk.Block()) {
+				op, x, y, isCmp := l.cmp()
+				lenOfPayload := func(v ssa.Value) bool {
+					lc, ok := stripConv(v).(*ssa.Call)
+					if !ok {
+						return false
+					}
+					b, ok := lc.Call.Value.(*ssa.Builtin)
+					return ok && b.Name() == "len" && stripConv(lc.Call.Args[0]) == ssa.Value(payloadCall.(*ssa.Call))
+				}
+				switch {
+				case isCmp && lenOfPayload(x) && isConstInt(y, 0) && (op == token.GTR || op == token.NEQ || op == token.GEQ):
+				case isCmp && lenOfPayload(x) && isConstInt(y, 1) && op == token.GEQ:
+				case isCmp && lenOfPayload(y) && isConstInt(x, 0) && (op == token.LSS || op == token.NEQ || op == token.LEQ):
+				default:
+					okGuard = false
+				}
+			}
+			c.check(okGuard, fn, "mask guard", msk.Pos(), "the payload is masked whenever it is not empty", "Mask(key, payload) runs under a condition other than len(payload) > 0: a non-empty payload leaves the client unmasked although the mask bit and a key are on the wire - the peer's unmasking garbles it")
+		}
+	}
+	// the header accessors: Reset zeroes the whole header; SetOpcode replaces the opcode bits (a frame object is reused);
+	// each named setter / predicate uses the opcode of its name
+	{
+		fm := func(n string) *ssa.Function { return p.TryMethod(ws, "Frame", n) }
+		// Reset
+		{
+			zeroed := false
+			why := "Frame.Reset does not overwrite the header"
+			eachInstr(resetM, func(in ssa.Instruction) {
+				call, ok := in.(*ssa.Call)
+				if !ok {
+					return
+				}
+				b, isB := call.Call.Value.(*ssa.Builtin)
+				if !isB {
+					return
+				}
+				switch b.Name() {
+				case "clear":
+					zeroed = true
+				case "copy":
+					// from a package-level array that is only ever stored zeroes
+					src := strip(call.Call.Args[1])
+					if sl, ok := src.(*ssa.Slice); ok {
+						src = strip(sl.X)
+					}
+					g, isG := src.(*ssa.Global)
+					if !isG {
+						why = "Frame.Reset copies from something other than the package's zero array"
+						return
+					}
+					allZero := true
+					for _, fn := range p.Funcs {
+						eachInstr(fn, func(x ssa.Instruction) {
+							st, ok := x.(*ssa.Store)
+							if !ok {
+								return
+							}
+							root, _ := rootOfAddr(st.Addr)
+							if root == ssa.Value(g) && !isConstInt(st.Val, 0) {
+								allZero = false
+							}
+						})
+					}
+					arr, isArr := g.Type().(*types.Pointer).Elem().Underlying().(*types.Array)
+					maxHdr, _ := constantInt(p.Const(ws, "frameMaxHeaderLength"))
+					if allZero && isArr && arr.Len() >= maxHdr {
+						zeroed = true
+					} else {
+						why = "the array Frame.Reset copies from is shorter than the header or is written with non-zero bytes"
+					}
+				}
+			})
+			c.check(zeroed, resetM, "reset zeroes the header", resetM.Pos(), "all header bytes are cleared", why+": a pooled frame keeps FIN/RSV/opcode/mask/length bits of its previous use")
+		}
+		// SetOpcode
+		if so := fm("SetOpcode"); so != nil {
+			elem0 := func(addr ssa.Value) bool {
+				ia, ok := addr.(*ssa.IndexAddr)
+				return ok && isConstInt(ia.Index, 0)
+			}
+			cleared, argMasked, ored := false, false, false
+			eachInstrDeep(so, func(in, _ ssa.Instruction, tr func(ssa.Value) ssa.Value) {
+				st, ok := in.(*ssa.Store)
+				if !ok || !elem0(st.Addr) {
+					return
+				}
+				bo, ok := stripConv(st.Val).(*ssa.BinOp)
+				if !ok {
+					return
+				}
+				switch bo.Op {
+				case token.AND:
+					if isConstInt(bo.Y, 0xF0) || isConstInt(bo.X, 0xF0) {
+						cleared = true
+					}
+				case token.OR:
+					ored = true
+					for _, side := range []ssa.Value{bo.X, bo.Y} {
+						if a, ok := stripConv(side).(*ssa.BinOp); ok && a.Op == token.AND && (isConstInt(a.Y, 0x0F) || isConstInt(a.X, 0x0F)) {
+							argMasked = true
+						}
+						if a, ok := stripConv(side).(*ssa.BinOp); ok && a.Op == token.AND && (isConstInt(a.Y, 0xF0) || isConstInt(a.X, 0xF0)) {
+							cleared = true
+						}
+					}
+				}
+			})
+			c.check(cleared && ored && argMasked, so, "opcode replaced", so.Pos(), "old opcode bits cleared, new opcode limited to four bits", fmt.Sprintf("SetOpcode does not replace the opcode bits (clears the old ones=%v, limits the new one to the low four bits=%v): on a reused frame the old and the new opcode are or-ed together, or an out-of-range opcode overwrites FIN/RSV", cleared, argMasked))
+		}
+		// named setters and predicates
+		nTab := 0
+		for _, name := range []string{"Continuation", "Text", "Binary", "Close", "Ping", "Pong"} {
+			k, okK := constantInt(p.Const(ws, "Opcode"+name))
+			if !okK {
+				continue
+			}
+			if set := fm("Set" + name); set != nil {
+				nTab++
+				good := false
+				for _, call := range allCalls(set) {
+					if h := call.Call.StaticCallee(); h != nil && pinName(h) == "SetOpcode" && isConstInt(call.Call.Args[len(call.Call.Args)-1], k) {
+						good = true
+					}
+				}
+				c.check(good, set, "opcode setter", set.Pos(), "sets Opcode"+name, "Set"+name+" does not set the opcode Opcode"+name+": a frame built with it goes out with another opcode")
+			}
+		}
+		if nTab < 6 {
+			c.bad(resetM, "opcode setter", resetM.Pos(), "the opcode setters of Frame were not found (anchor moved): %d", nTab)
+		}
 	}
 	{
 		// who feeds the codec connection
